@@ -3,6 +3,18 @@ MC_NOTE = ("Trusted: CPython 3.12, numpy/pandas/pydantic as installed, the laws 
            "(random.sample uniform, random.choices / np.random.choice categorical), the reference models in engine/refs.py. "
            "Small-scope bounds as stated in the evidence file; nothing is claimed beyond them.")
 TABLE = {
+ "C10": dict(level="model_checking", engine="chooser",
+   technique="exhaustive exploration of all scripted RNG outcomes of every non-random rule; structural oracle on every recorded tiebreak; exact law of resolutions",
+   text="Every non-random rule configuration is run on every profile of the families under every outcome of every random draw. A run that consumed a random choice must record a tiebreak; every recorded tiebreak must concern candidates tied on the deciding tally, straddle the decision, and be obeyed by the round's groups; 'borda'/'first_place' resolutions must be exactly the orders consistent with that score, equally likely among still-tied candidates (path probabilities). Membership of real-RNG outcomes in the scripted outcome set validates the RNG seam.",
+   note=MC_NOTE),
+ "C13": dict(level="model_checking", engine="chooser",
+   technique="paired exhaustive exploration under identical choice vectors (aliases) and exact outcome distributions (TopTwo, Alaska vs separately constructed components)",
+   text="IRV/SNTV/SequentialRCV are run side by side with STV(m=1)/Plurality/STV(full-weight transfer) under every choice vector and must record identical rounds; TopTwo's exact winner distribution must equal a reference composition; Alaska's exact distribution over complete round records must equal that of a real Plurality stage followed by a separately constructed real STV on the reduced profile, rounds renumbered.",
+   note=MC_NOTE),
+ "C17": dict(level="model_checking", engine="chooser",
+   technique="complete enumeration of the RNG choice tree with exact edge probabilities; law of the winner sequence as a finite sum vs closed form",
+   text="For every profile of the family and every m the complete choice tree of RandomDictator / BoostedRandomDictator is enumerated; the probability of every winner sequence (sum of path probabilities, exact Fractions; 1e-12 for the float squares) must equal the documented seat-by-seat law. Random tiebreaks: all |T|! resolutions with probability 1/|T|!, and equal seat/elimination probabilities for tied candidates in Plurality, Borda and first-round STV ties.",
+   note=MC_NOTE),
  "C03": dict(level="model_checking", engine="chooser+lockstep",
    technique="exhaustive enumeration of ballot lists x winners x thresholds x all random.sample outcomes (exact selection law); round-by-round vote accounting on all STV runs",
    text="The transfer functions are called directly on every ordered ballot list of a bounded family for every winner and threshold; for the random rule every outcome of the selection is explored and the exact law of the selected sub-collection (path probabilities as Fractions) is compared with 'every (tally-threshold)-subset of the transferable ballots equally likely'. Every STV run of the C02 family is additionally checked round by round for conservation (drop = threshold consumed + exhausted weight).",
